@@ -240,6 +240,7 @@ func (set *TemplateSet) fromFile(filename string, depth int) (*Template, error) 
 		}
 	}
 	buf, err := io.ReadAll(fd)
+	closeReader(fd)
 	if err != nil {
 		return nil, &Error{
 			Filename:  filename,
@@ -249,6 +250,15 @@ func (set *TemplateSet) fromFile(filename string, depth int) (*Template, error) 
 	}
 
 	return newTemplate(set, filename, false, buf, depth)
+}
+
+// closeReader releases what a loader has opened for us (FSLoader and
+// HttpFilesystemLoader hand out the opened file) once it has been read; a loader that
+// hands out an in-memory reader leaves nothing to close.
+func closeReader(fd io.Reader) {
+	if c, ok := fd.(io.Closer); ok {
+		_ = c.Close()
+	}
 }
 
 // RenderTemplateString is a shortcut and renders a template string directly.
